@@ -599,7 +599,12 @@ class Concatenator(Group):  # pylint: disable=too-many-public-methods
         for key, attr in entity.attribute_map.items():
             val = getattr(entity, attr, None)
 
-            if val is None or attr == "property_groups":
+            if attr == "property_groups":
+                continue
+
+            if val is None:
+                # an attribute set back to None does not keep its former value
+                target_attributes.pop(key, None)
                 continue
 
             if isinstance(val, np.ndarray):
